@@ -11,12 +11,8 @@ COMMON_NOTE = ("Coq 8.16.1 kernel + vm_compute; no axioms beyond the stdlib ones
 
 CLAIMED = {
     "C02": dict(
-        text="Coq theorems for every object list, every skill oracle and every op sequence: a fresh osu!/catch/mania gradual "
-             "calculator returns exactly what a plain iterator over [one-shot(1..total)] returns (counts and skill state), "
-             "so value i = passed_objects(i), #values = len, final = full. Taiko: model + correspondence, one-shot combo theorem, "
-             "three refutation lemmas for the recorded finding F6; the positive taiko statement is not proved (partial). "
-             "Float attributes are compared bitwise gradual-vs-one-shot on the implementation for every prefix.",
-        tech="Coq simulation proof (gradual machine refines list iterator) + model/impl correspondence + bitwise differential"),
+        text='Coq theorems for every object list / hit-flag list, every skill oracle and every op sequence: a fresh gradual calculator of ALL FOUR modes (taiko included, after the fix 8d6162b) returns exactly what a plain iterator over [one-shot(1..total)] returns (counts and skill state), so value i = passed_objects(i) and #values = len. Final value = full calculation: theorem for osu!/catch; for taiko it is refuted on maps ending in non-hit objects (recorded finding F6c, theorem C02_taiko_trailing_refuted). Float attributes are compared bitwise gradual-vs-one-shot on the implementation for every prefix.',
+        tech='Coq simulation proof (gradual machine refines list iterator, 4 modes) + model/impl correspondence + bitwise differential'),
     "C01": dict(
         text="A Gallina model cannot exhibit nondeterminism, so the proof is: (a) the inventory of ambient-effect sites (hash "
              "iteration, statics, thread-locals, lazy init, interior mutability, clocks, environment, ambient RNGs, file system, "
@@ -28,14 +24,8 @@ CLAIMED = {
              "fresh vs reused builders, map hash before/after, two processes) - partial.",
         tech="translator-generated effect inventory + Coq permutation-invariance proof + repetition/cross-process differential"),
     "C03": dict(
-        text="Coq theorems for every object list, every skill oracle, every performance oracle, every score state and every "
-             "sequence of next/nth(k)/last/len calls: a fresh osu!/catch/mania gradual performance calculator returns exactly "
-             "perf(one-shot(i), i, state) for the position i it reaches (min(n+1, remaining) objects processed, None iff nothing "
-             "remains) - i.e. what a one-shot Performance with passed_objects(i) and that state evaluates, the performance "
-             "function being the same oracle in both paths. Tied to the code by model/impl correspondence on counts, Some/None, "
-             "len and the passed_objects value, and by bitwise comparison of every gradual result with the one-shot Performance. "
-             "Taiko: model + correspondence only; findings F6a/F6b (partial).",
-        tech="Coq simulation proof (gradual performance refines one-shot performance of the prefix) + model/impl correspondence + bitwise differential"),
+        text='Coq theorems for every object list, every skill oracle, every performance oracle, every score state and every sequence of next/nth(k)/last/len calls, all four modes: a fresh gradual performance calculator returns exactly perf(one-shot(i), i, state) for the position i it reaches (min(n+1, remaining) objects processed, None iff nothing remains) - what a one-shot Performance with passed_objects(i) and that state evaluates, the performance function being the same oracle in both paths. Tied to the code by model/impl correspondence on counts, Some/None, len and the passed_objects value, and by bitwise comparison of every gradual result with the one-shot Performance.',
+        tech='Coq simulation proof (gradual performance refines one-shot performance of the prefix, 4 modes) + model/impl correspondence + bitwise differential'),
     "C04": dict(
         text="Coq theorem, for every mode, map, Difficulty, score specification and every difficulty/state/pp oracle: "
              "calculate() from the attributes the map yields = calculate() from the map (both evaluate pp on the same attributes, "
@@ -99,6 +89,15 @@ CLAIMED = {
              "Arc/RwLock are outside the model: exercised by thread pools of 2-16 threads with shuffled/duplicated assignment, "
              "a many-round stress on small seeded jobs, and per-step thread hand-over of gradual calculators with sync (partial).",
         tech="Coq confluence proof over an interleaving model + translator-generated effect inventory + threaded differential"),
+    "C05": dict(
+        text="Partial by nature. Coq theorems for the panic / non-termination sites of the modelled components: the banana-shower loop visits strictly increasing f32 times (terminates; the counting step 'finitely many f32 values' is not formalised), gradual next/nth are defined from every reachable state, the strain list's zero counter cannot overflow, generate_state (osu!, taiko) stays within bounds, mania columns are valid indices for every key count and integral x, control-point insertion is total. Everything else (slider geometry, skill evaluators, pp formulas, allocator) is decided by the isolated-worker run: each case in a child process under a 60 s watchdog and a 4 GiB address-space limit, release builds for the adversarial domain, release and debug (overflow checks) for the realistic one.",
+        tech='Coq proofs for modelled panic/termination sites + isolated-worker exploration with watchdog'),
+    "C06": dict(
+        text='Coq theorems: for EVERY sequence of timing lines the decoded timing/difficulty/effect points are strictly ordered (model of the pending/flush/binary-search-insert logic, tied word for word to the decoder on every run); objects and sounds are permuted by the same swaps (tandem sort = sort of the zipped lines) for every swap sequence; complete check of the tandem sort incl. sorter reuse on all 1093 small time patterns. NOT modelled: tokenisers, number parsers, encodings, slider path parsing, mania legacy sort - for those totality / io-errors-only / finiteness / clamps / bytes=str=path are decided by the byte-level oracle only (partial).',
+        tech='Coq invariant proof over a decoder bookkeeping model + word-exact correspondence + byte-level well-formedness oracle'),
+    "C19": dict(
+        text='Coq theorems: mania key count = key mod or within 4..7 for every cs/od/object mix (model tied to the code); a note placed through column_to_pos is read back in its column for all key counts 1..10 and no integral x maps to a column at or above the key count for 1..18 (complete finite checks over the f32 model, tied to ManiaObject::column); taiko objects/sounds spliced in lock step and sorted in tandem keep one sound per object; effect points stay strictly ordered. NOT modelled: pattern choice, slider geometry, the taiko hit-splitting arithmetic - decided by the direct oracle over generated osu! maps x targets x key mods (partial). Random columns: only the end points of next_int_range are proved.',
+        tech='Coq proofs over column/key-count models + correspondence + structural oracle on conversions'),
     "C11": dict(
         text="Coq theorems (unbounded op sequences) that the compact strain list refines a plain list, that transmute_into_vec's "
              "and from_raw_parts' contracts hold and that zero counts never overflow; model tied to src/util/strains_vec.rs by "
@@ -127,10 +126,8 @@ CLAIMED = {
              "attributes for every n in 0..total+2 with the model and with an independent count over the hook views.",
         tech="Coq proofs over one-shot count models + model/impl correspondence + independent recount"),
     "C15": dict(
-        text="Same simulation theorems as C02 read as the iterator protocol: for every op sequence over next/nth(k)/len (k arbitrary "
-             ">= 0) the osu!/catch/mania machines equal a plain list iterator (nth exhausts and returns None past the end, len = "
-             "remaining, None forever after exhaustion). Taiko: finding F6 (refutation lemmas), positive statement unproved (partial).",
-        tech="Coq simulation proof over arbitrary op sequences + model/impl correspondence + reference-iterator differential"),
+        text='The simulation theorems of C02 read as the iterator protocol, all four modes (taiko after the fix 8d6162b): for every op sequence over next/nth(k)/len (k arbitrary >= 0) the machine equals a plain list iterator (nth exhausts and returns None past the end, len = remaining and never underflows, None forever after exhaustion); gradual performance: nth(state,n) processes min(n+1, remaining), last all remaining, None iff nothing remains (C03 theorems).',
+        tech='Coq simulation proof over arbitrary op sequences + model/impl correspondence + reference-iterator differential'),
     "C16": dict(
         text="Coq theorems: for every reachable compact strain vector of non-negative peaks the internally computed "
              "difficulty value equals the documented re-aggregation of the exported vector (and the flashlight sum likewise); "
